@@ -12,7 +12,11 @@
      parameter B ([ray_loop_tiled]); on the CPU device wp.block_dim() = 1.  tile_argmin is
      modelled as "first index attaining the minimum".
    * _ray_bvh (l.1087-1169) and render.cast_ray: same initial accumulator, update iff
-     dist >= 0 and dist < min_dist, geoms visited in the order the BVH query yields them.
+     dist >= 0 and dist < min_dist, geoms visited in the order the BVH query yields them;
+     a yielded primitive index is mapped to a geom with the per-world stride ngeom + nflexgeom,
+     flex primitives are skipped ([bvh_geom_of], repaired in /repo ae9ede3).
+   * render: orthographic cameras start the ray at the pixel centre of the fovy-high window
+     ([ortho_offset_cam], repaired in /repo 2e971a4).
    * the BVH query itself (wp.bvh_query_ray / wp.bvh_query_next, C++ builtins) is NOT in
      /repo; [bvh_trav] is an abstract traversal: a binary tree of boxes, a subtree is skipped
      when [prune box current_best] says so, children visited in either order. *)
@@ -144,13 +148,34 @@ Section RayModel.
     if Z.eqb (ageom a) (-1)%Z then (s0, ((-1)%Z, (-1)%Z))
     else (smul (adist a) (sneg (vget dir_local 2%Z)), (ageom a, OBJ_GEOM)).
 
-  (* whole pixel: ray_dir_world = cam_xmat @ ray_dir_local_cam, origin = cam_xpos (for EVERY
-     pixel and projection), candidates [gd origin dir g] for the geoms of the scene BVH in
-     the order visited *)
-  Definition render_pixel (cull : bool) (cam_xpos cam_xmat dir_local : list S)
+  (* orthographic cameras (render.py, commit 2e971a4): the ray starts at the pixel centre of the image
+     window of height fovy (length units):
+       half_h = 0.5 * fovy ; half_w = half_h * float(W) / float(H)
+       u = (float(local % W) + 0.5) / float(W) ; v = (float(local // W) + 0.5) / float(H)
+       origin += cam_mat @ vec3(half_w * (2u - 1), half_h * (1 - 2v), 0)
+     (kernel ints: % and // truncate) ; every other projection starts at cam_xpos *)
+  Definition ortho_offset_cam (fovy : S) (W Hh local : Z) : list S :=
+    let half_h := smul (slit 1 2) fovy in
+    let half_w := sdiv (smul half_h (sofZ W)) (sofZ Hh) in
+    let u := sdiv (sadd (sofZ (Z.rem local W)) (slit 1 2)) (sofZ W) in
+    let v := sdiv (sadd (sofZ (Z.quot local W)) (slit 1 2)) (sofZ Hh) in
+    [smul half_w (ssub (smul (sofZ 2) u) (sofZ 1)); smul half_h (ssub (sofZ 1) (smul (sofZ 2) v)); s0].
+
+  (* ray origin in camera coordinates *)
+  Definition render_origin_cam (proj : Z) (fovy : S) (W Hh local : Z) : list S :=
+    if Z.eqb proj 1%Z then ortho_offset_cam fovy W Hh local else zero3.
+
+  (* ray origin in world coordinates: `ray_origin_world += cam_mat_world @ offset` only when orthographic *)
+  Definition render_origin (proj : Z) (fovy : S) (W Hh local : Z) (cam_xpos cam_xmat : list S) : list S :=
+    if Z.eqb proj 1%Z then vadd cam_xpos (mat_vec 3 3 cam_xmat (ortho_offset_cam fovy W Hh local)) else cam_xpos.
+
+  (* whole pixel with local index `local` = px + py*W: ray_dir_world = cam_xmat @ ray_dir_local_cam,
+     origin as above, candidates [gd origin dir g] for the geoms of the scene BVH in the order visited *)
+  Definition render_pixel (cull : bool) (proj : Z) (fovy : S) (W Hh local : Z) (cam_xpos cam_xmat dir_local : list S)
              (gd : list S -> list S -> Z -> S * list S) (order : list Z) : S * (Z * Z) :=
     let dir_world := mat_vec 3 3 cam_xmat dir_local in
-    let cand := fun g => cull_hit cull dir_world (gd cam_xpos dir_world g) in
+    let origin := render_origin proj fovy W Hh local cam_xpos cam_xmat in
+    let cand := fun g => cull_hit cull dir_world (gd origin dir_world g) in
     render_out (bvh_loop cand order) dir_local.
 
   (* the near-plane point through which compute_ray aims, in camera coordinates *)
@@ -159,6 +184,28 @@ Section RayModel.
     let v := sdiv (sadd (sofZ py) (slit 1 2)) (sofZ Hh) in
     [sadd left_ (smul (ssub right_ left_) u); sadd top (smul (ssub bottom top) v); sneg znear].
 
-  (* the ray the render kernel casts for a pixel, camera frame: origin is the camera centre *)
-  Definition render_ray_cam (dir_local : list S) : list S * list S := (zero3, dir_local).
+  (* the ray the render kernel casts for a pixel, camera frame *)
+  Definition render_ray_cam (proj : Z) (fovy : S) (W Hh local : Z) (dir_local : list S) : list S * list S :=
+    (render_origin_cam proj fovy W Hh local, dir_local).
+
+  (* ---------------------------------------------------------------- _ray_bvh: BVH primitive -> geom *)
+  (* commit ae9ede3: the scene BVH stores, per world, ngeom geoms followed by nflexgeom flex primitives:
+       bvh_local = bounds_nr - worldid * (ngeom + nflexgeom)
+       if bvh_local >= ngeom: continue          (flex primitive: not a geom)
+       geomid = enabled_geom_ids[bvh_local] *)
+  Definition bvh_geom_of (ngeom nflexgeom worldid : Z) (enabled : Z -> Z) (bounds_nr : Z) : option Z :=
+    let bvh_local := (bounds_nr - worldid * (ngeom + nflexgeom))%Z in
+    if Z.geb bvh_local ngeom then None else Some (enabled bvh_local).
+
+  Definition bvh_prim_step (gd : Z -> S * list S) (ngeom nflexgeom worldid : Z) (enabled : Z -> Z)
+             (acc : racc) (bounds_nr : Z) : racc :=
+    match bvh_geom_of ngeom nflexgeom worldid enabled bounds_nr with
+    | None => acc
+    | Some g => bvh_step gd acc g
+    end.
+
+  (* _ray_bvh over the primitive indices the query yields (nothing pruned) *)
+  Definition ray_bvh_kernel_prims (gd : Z -> S * list S) (ngeom nflexgeom worldid : Z) (enabled : Z -> Z)
+             (prims : list Z) : S * Z * list S :=
+    ray_result (fold_left (bvh_prim_step gd ngeom nflexgeom worldid enabled) prims racc0).
 End RayModel.
